@@ -7,8 +7,8 @@ import LopdfModel.Spec.Charts
   re-encoding   reencode_units_stable, reencode_stable (ANY table), encode_decode_repertoire
   charts        winansi_chart_agrees, pdfdoc_chart_agrees, macroman_chart_agrees (+ cp1252 / PDFDoc specials)
   UTF-16        utf16_encode_decode, utf16_decode_encode, encode_spec, decode_spec   (Lemmas/Utf16.lean)
-  text strings  text_string_rt_partial (+ counter-witness, exact ASCII classification), utf8_bom_decodes
-                (+ witness that the mark is retained), odd_length_utf16, lone_bom
+  text strings  text_string_form, text_string_rt (FULL, every list of scalars), utf8_bom_decodes (exactly s),
+                odd_length_utf16, lone_bom
   extraction    extract_shown_text, extract_never_panics
 -/
 namespace Lopdf
@@ -144,9 +144,6 @@ theorem head_ne_of_ascii (c : Nat) (h : c < 128) (k : UInt8) (hk : 128 ≤ k.toN
     omega
   simpa using this
 
-/-- decidable guard of the partial round trip: non-ASCII text, or ASCII text made of 0x20–0x7E only -/
-def tsGuard (s : UStr) : Bool := !(isAsciiStr s) || s.all (fun c => 0x20 ≤ c && c ≤ 0x7E)
-
 theorem pdfdoc_printable (cs : UStr) (h : ∀ c ∈ cs, 0x20 ≤ c ∧ c ≤ 0x7E) :
     bytesToUnits PDF_DOC_ENCODING (cs.map Nat.toUInt8) = cs := by
   induction cs with
@@ -160,25 +157,63 @@ theorem pdfdoc_printable (cs : UStr) (h : ∀ c ∈ cs, 0x20 ≤ c ∧ c ≤ 0x7
     simp only [bytesToUnits] at ih' ⊢
     simp [hcell, ih']
 
-/-
-  FULL STATEMENT (false of the code):
-     ∀ s, (∀ c ∈ s, Scalar c) → decodeTextString (textString s) = .ok s
-  `text_string` keeps ASCII text as a PDFDocEncoding literal, and `PDF_DOC_ENCODING` has no
-  character at 0x00–0x17 and 0x7F and spacing accents at 0x18–0x1F: see
-  `text_string_rt_counterexample` and `text_string_ascii_classification`.
--/
+/-- the byte test of `text_string`, read on scalar values: literal form iff every character is 0x20–0x7E -/
+theorem enc8_all (c : Nat) :
+    (enc8 c).all (fun b => TEXT_LITERAL_LO ≤ b && b < TEXT_LITERAL_HI) = (decide (0x20 ≤ c) && decide (c < 0x7F)) := by
+  unfold enc8
+  by_cases h1 : c < 0x80
+  · rw [Bool.eq_iff_iff]
+    simp [h1, TEXT_LITERAL_LO, TEXT_LITERAL_HI]
+    exact ⟨fun h => ⟨of_decide_eq_true h.1, of_decide_eq_true h.2⟩, fun h => ⟨decide_eq_true h.1, decide_eq_true h.2⟩⟩
+  · have hc : ¬ c < 0x7F := by omega
+    by_cases h2 : c < 0x800
+    · have : ¬ (0xC0 + c / 64 < 127) := by omega
+      simp [h1, h2, hc, this, TEXT_LITERAL_LO, TEXT_LITERAL_HI]
+    · by_cases h3 : c < 0x10000
+      · have : ¬ (0xE0 + c / 4096 < 127) := by omega
+        simp [h1, h2, h3, hc, this, TEXT_LITERAL_LO, TEXT_LITERAL_HI]
+      · have : ¬ (0xF0 + c / 262144 < 127) := by omega
+        simp [h1, h2, h3, hc, this, TEXT_LITERAL_LO, TEXT_LITERAL_HI]
 
-/-- **Text-string round trip** for every Unicode string that is not ASCII-with-controls. -/
-theorem text_string_rt_partial (s : UStr) (hs : ∀ c ∈ s, Scalar c) (hg : tsGuard s = true) :
+theorem isLiteralText_iff (s : UStr) : isLiteralText s = true ↔ ∀ c ∈ s, 0x20 ≤ c ∧ c < 0x7F := by
+  induction s with
+  | nil => simp [isLiteralText, enc8s]
+  | cons c cs ih =>
+    simp only [isLiteralText, enc8s, List.all_append, Bool.and_eq_true, enc8_all, decide_eq_true_eq] at ih ⊢
+    simp only [List.mem_cons, forall_eq_or_imp]
+    exact ⟨fun h => ⟨h.1, ih.mp h.2⟩, fun h => ⟨h.1, ih.mpr h.2⟩⟩
+
+theorem enc8s_printable : ∀ (s : UStr), (∀ c ∈ s, c < 0x80) → enc8s s = s
+  | [], _ => rfl
+  | c :: cs, h => by
+    have hc := h c (by simp)
+    simp [enc8s, enc8, hc, enc8s_printable cs (fun x hx => h x (by simp [hx]))]
+
+/-- **The form of a text string**: printable ASCII stays a PDFDocEncoding literal of the same bytes,
+everything else becomes FE FF followed by UTF-16BE, as a hexadecimal string. -/
+theorem text_string_form (s : UStr) :
+    ((∀ c ∈ s, 0x20 ≤ c ∧ c < 0x7F) → textString s = .str (s.map Nat.toUInt8) .lit) ∧
+    (¬ (∀ c ∈ s, 0x20 ≤ c ∧ c < 0x7F) → textString s = .str (TEXT_BOM_UTF16 ++ unitsBe (stdEncodeUtf16 s)) .hex) := by
+  constructor
+  · intro h
+    have hl := (isLiteralText_iff s).mpr h
+    simp only [textString, hl, if_true, stdUtf8, enc8s_printable s (fun c hc => by have := h c hc; omega)]
+  · intro h
+    have hl : isLiteralText s = false := by
+      cases hh : isLiteralText s with
+      | false => rfl
+      | true => exact absurd ((isLiteralText_iff s).mp hh) h
+    simp [textString, hl, encodeUtf16Be, beBytes_bom]
+
+/-- **Text-string round trip, full statement**: encoding any Unicode string as a PDF text string
+and decoding it returns the same string — for EVERY list of Unicode scalar values
+(C0 controls, DEL, lone U+FEFF, astral characters included). -/
+theorem text_string_rt (s : UStr) (hs : ∀ c ∈ s, Scalar c) :
     decodeTextString (textString s) = .ok s := by
-  unfold textString
-  by_cases ha : isAsciiStr s = true
+  by_cases ha : ∀ c ∈ s, 0x20 ≤ c ∧ c < 0x7F
   · -- literal PDFDocEncoding form
-    simp only [ha, if_true]
-    have hp : ∀ c ∈ s, 0x20 ≤ c ∧ c ≤ 0x7E := by
-      simp only [tsGuard, ha, Bool.not_true, Bool.false_or, List.all_eq_true, Bool.and_eq_true,
-        decide_eq_true_eq] at hg
-      exact hg
+    rw [(text_string_form s).1 ha]
+    have hp : ∀ c ∈ s, 0x20 ≤ c ∧ c ≤ 0x7E := fun c hc => by have := ha c hc; omega
     have h16 : TEXT_BOM_UTF16.isPrefixOf (s.map Nat.toUInt8) = false := by
       cases s with
       | nil => rfl
@@ -197,34 +232,17 @@ theorem text_string_rt_partial (s : UStr) (hs : ∀ c ∈ s, Scalar c) (hg : tsG
       | some s => Outcome.ok s | none => Outcome.panic PANIC_FROM_UTF16) = _
     rw [pdfdoc_printable s hp, decode_no_surrogate s (fun u hu => by have := hp u hu; omega)]
   · -- UTF-16BE form
-    simp only [ha, Bool.false_eq_true, if_false]
-    unfold encodeUtf16Be
-    rw [beBytes_bom]
+    rw [(text_string_form s).2 ha]
     have hpre : TEXT_BOM_UTF16.isPrefixOf (TEXT_BOM_UTF16 ++ unitsBe (stdEncodeUtf16 s)) = true := by
       simp [TEXT_BOM_UTF16, List.isPrefixOf]
-    have hdrop : (TEXT_BOM_UTF16 ++ unitsBe (stdEncodeUtf16 s)).drop TEXT_BOM_UTF16.length
-        = unitsBe (stdEncodeUtf16 s) := by simp
+    have hdrop : (TEXT_BOM_UTF16 ++ unitsBe (stdEncodeUtf16 s)).drop TEXT_UTF16_SKIP
+        = unitsBe (stdEncodeUtf16 s) := by simp [TEXT_BOM_UTF16, TEXT_UTF16_SKIP]
     simp only [decodeTextString, hpre, if_true, hdrop]
     rw [chunkUnits_unitsBe _ (encode_units_lt s hs), utf16_encode_decode s hs]
 
-example : tsGuard [0x442, 0x435, 0x1F600, 10, 0] = true := by decide
-example : tsGuard [0x48, 0x69, 0x7E] = true := by decide
-
-/-- counter-witness of the full statement: `text_string("a\nb\tc")` decodes to `"abc"` (F-C16-a) -/
-theorem text_string_rt_counterexample :
-    decodeTextString (textString [97, 10, 98, 9, 99]) = .ok [97, 98, 99] := by decide +kernel
-
-theorem text_string_rt_full_is_false :
-    ¬ (∀ s : UStr, (∀ c ∈ s, Scalar c) → decodeTextString (textString s) = .ok s) := by
-  intro h
-  have := h [97, 10, 98, 9, 99] (by decide)
-  rw [text_string_rt_counterexample] at this
-  exact absurd this (by decide)
-
-/-- exact classification for single ASCII characters: the round trip holds iff 0x20 ≤ c ≤ 0x7E -/
-theorem text_string_ascii_classification :
-    ∀ c : Fin 128, (decodeTextString (textString [c.val]) = .ok [c.val]) ↔ (0x20 ≤ c.val ∧ c.val ≤ 0x7E) := by
-  decide +kernel
+/-- the former counter-witness of F-C16-a now round-trips -/
+example : decodeTextString (textString [97, 10, 98, 9, 99]) = .ok [97, 10, 98, 9, 99] := by decide +kernel
+example : ∀ c ∈ [0x442, 0x435, 0x1F600, 10, 0, 0x7F, 0xFEFF], Scalar c := by decide
 
 /-- a lone mark is the empty string -/
 theorem lone_bom (f : StrFmt) : decodeTextString (.str TEXT_BOM_UTF16 f) = .ok [] := by
@@ -238,39 +256,29 @@ theorem odd_length_utf16 (us : List Nat) (hu : ∀ u ∈ us, u < 0x10000) (b : U
       | none => .err "TextStringDecode" := by
   have hpre : TEXT_BOM_UTF16.isPrefixOf (TEXT_BOM_UTF16 ++ (unitsBe us ++ [b])) = true := by
     simp [TEXT_BOM_UTF16, List.isPrefixOf]
-  have hdrop : (TEXT_BOM_UTF16 ++ (unitsBe us ++ [b])).drop TEXT_BOM_UTF16.length = unitsBe us ++ [b] := by simp
+  have hdrop : (TEXT_BOM_UTF16 ++ (unitsBe us ++ [b])).drop TEXT_UTF16_SKIP = unitsBe us ++ [b] := by
+    simp [TEXT_BOM_UTF16, TEXT_UTF16_SKIP]
   simp only [decodeTextString, hpre, if_true, hdrop]
   rw [chunkUnits_unitsBe_odd us b hu]
   cases stdFromUtf16 (us ++ [b.toNat * 256]) <;> rfl
 
-/-- **UTF-8 with a mark decodes** to its text — with the mark retained as U+FEFF (F-C16-b) -/
+/-- **UTF-8 with a mark decodes** to exactly its text, for every Unicode string -/
 theorem utf8_bom_decodes (s : UStr) (hs : ∀ c ∈ s, Scalar c) (f : StrFmt) :
-    decodeTextString (.str (encodeUtf8 s) f) = .ok (0xFEFF :: s) := by
+    decodeTextString (.str (encodeUtf8 s) f) = .ok s := by
   have h16 : TEXT_BOM_UTF16.isPrefixOf (encodeUtf8 s) = false := by
     simp [encodeUtf8, WRITE_BOM_UTF8, TEXT_BOM_UTF16, List.isPrefixOf]
   have h8 : TEXT_BOM_UTF8.isPrefixOf (encodeUtf8 s) = true := by
     simp [encodeUtf8, WRITE_BOM_UTF8, TEXT_BOM_UTF8, List.isPrefixOf]
-  have hdec : stdFromUtf8 (encodeUtf8 s) = some (0xFEFF :: s) := by
-    have hlt := enc8s_lt (0xFEFF :: s) (by
-      intro c hc; simp only [List.mem_cons] at hc
-      rcases hc with hc | hc
-      · rw [hc]; decide
-      · exact hs c hc)
-    have e : encodeUtf8 s = stdUtf8 (0xFEFF :: s) := by
-      simp [encodeUtf8, stdUtf8, enc8s, enc8, WRITE_BOM_UTF8]
-    rw [e]
+  have hdrop : (encodeUtf8 s).drop TEXT_UTF8_SKIP = stdUtf8 s := by
+    simp [encodeUtf8, WRITE_BOM_UTF8, TEXT_UTF8_SKIP]
+  have hdec : stdFromUtf8 (stdUtf8 s) = some s := by
     unfold stdFromUtf8 stdUtf8
-    rw [map_toUInt8_toNat _ hlt]
-    exact utf8_encode_decode (0xFEFF :: s) (by
-      intro c hc; simp only [List.mem_cons] at hc
-      rcases hc with hc | hc
-      · rw [hc]; decide
-      · exact hs c hc)
-  simp only [decodeTextString, h16, h8, Bool.false_eq_true, if_false, if_true, hdec]
+    rw [map_toUInt8_toNat _ (enc8s_lt s hs)]
+    exact utf8_encode_decode s hs
+  simp only [decodeTextString, h16, h8, Bool.false_eq_true, if_false, if_true, hdrop, hdec]
 
-/-- the mark comes back as part of the text: `decode(encode_utf8("abc")) ≠ "abc"` -/
-theorem utf8_bom_retained :
-    decodeTextString (.str (encodeUtf8 [97, 98, 99]) .lit) = .ok [0xFEFF, 97, 98, 99] := by decide +kernel
+/-- the former witness of F-C16-b: the mark is no longer part of the text -/
+example : decodeTextString (.str (encodeUtf8 [97, 98, 99]) .lit) = .ok [97, 98, 99] := by decide +kernel
 
 /-! ## 5. fonts -/
 
